@@ -306,7 +306,9 @@ def jobs(tier):
         cfgs += [("crossbar", 2, 3, "hole", 10), ("crossbar", 3, 2, "adjacent", 10), ("crossbar", 3, 3, "hole", 8)]
         cfgs += [("shared", 1, 1, "adjacent", 14), ("crossbar", 1, 3, "gapped", 12), ("shared", 3, 1, "gapped", 14)]
     else:
-        cfgs = [("shared", 2, 2, "adjacent", 10), ("shared", 2, 3, "hole", 10), ("crossbar", 2, 2, "hole", 10), ("shared", 1, 2, "gapped", 10)]
+        cfgs = [("shared", 2, 2, "adjacent", 10), ("shared", 2, 3, "hole", 10), ("crossbar", 2, 2, "hole", 10), ("shared", 1, 2, "gapped", 10),
+                # more masters than slaves (the access matrix is masters x slaves, not square)
+                ("crossbar", 2, 1, "hole", 10)]
     for (kind, m, s, mp, K) in cfgs:
         js.append(Job("axil_%s_%dx%d_%s" % (kind, m, s, mp), build, dict(kind=kind, M=m, S=s, mapname=mp, K=K), cost=m * s * (3 if kind == "crossbar" else 1) * K, timeout_s=5000))
     # AXI4 twins (bursts of 1..3 beats, rigid symbolic length)
